@@ -55,7 +55,7 @@ BASES = [("int", None), ("unsigned int", None), ("char", None), ("bool", None), 
          ("N::Ec", "qualified"), ("enum N::E", "elaborated"), ("N::M::Deep", "nested"), ("NM::Deep", "alias"), ("::Sh", "shadow"), ("N::Sh", "shadow"),
          ("Tp<int>", "template_type"), ("Tp<N::S1, 4>", "template_value"), ("Tp<S0, 2 + 1>", "template_value"), ("Pair<int>", "template_default"),
          ("Pair<N::S1, const S0 *>", "template_type"), ("TpInt", "typedef"), ("N::S1::InP", "typedef"), ("Tp<Tp<char>, 2>", "template_type"),
-         ("void", None)]
+         ("void", None), ("Tp<char, -(-2)>", "template_value"), ("Tp<long, +(+3) - -1>", "template_value"), ("Tp<bool, ~(-4)>", "template_value")]
 CLASSES = ["S0", "N::S1", "N::S1::In"]
 OPS = ["ptr", "ptr", "lref", "rref", "array", "array", "func", "const", "const", "volatile", "memptr", "memfn"]
 
